@@ -37,6 +37,23 @@ Proof.
 Qed.
 Print Assumptions C05_invoked_iff.
 
+(* The same for a valid session set (C01), with "an event occurred in period t" stated on the INPUT:
+   a given Plugin/Recompute event has timestamp t, or a given session departs at t. *)
+Theorem C05_invoked_iff_valid :
+  forall N V Sch stations maxrec num_view num_apply num_charge num_store (sched : V -> Sch) evs n0 st,
+  valid stations evs ->
+  run N V Sch stations maxrec num_view num_apply num_charge num_store sched (fuel_of evs) (init N V evs n0) = Done st ->
+  forall t, 0 <= t < iter st ->
+    (In t (map fst (calls st)) <->
+     ((exists e, In e evs /\ ev_ts e = t) \/ (exists x, In x (sessions_of evs) /\ s_departure x = t)) \/
+     (exists k, maxrec = Some k /\
+                match prev_call (map fst (calls st)) t with None => True | Some l => k <= t - l end)).
+Proof.
+  intros until st. intros VAL R.
+  exact (invoked_iff_valid N V Sch stations maxrec num_view num_apply num_charge num_store sched evs VAL n0 st R).
+Qed.
+Print Assumptions C05_invoked_iff_valid.
+
 (* At most one invocation per period (the log is strictly increasing in time, all within the run);
    each invocation (t, v) happened in a loop iteration that started in a reachable state s with
    iter s = t: the period's events were processed first (events_phase s = s1), the regenerated
